@@ -10,9 +10,8 @@
    stream is not longer than what the model's fuel counts, and that source errors are not the
    model's out-of-fuel code.  The theorems take the contract as explicit premises.
 
-   Agreement is exact for remaining streams shorter than 2^31 bytes; beyond that BufferReader
-   accepts container counts with the sign bit set (dead "sz < 0" after int(uint32)) and the
-   template accepts such string lengths — see the findings in Properties/C08.v. *)
+   Agreement is exact for streams of any length (since the repair 2c7f196 BufferReader tests
+   int32(sz) < 0 and the template reads the STRING length as int32). *)
 From GV Require Import Lib.Bytes Lib.Res Gen.Consts Model.Binary Model.BufReader Model.Skip
   Model.StreamSkip Model.SkipDecoders
   Spec.ThriftGrammar Spec.RefParse Proofs.RefLib Proofs.RefP Proofs.SkipLib Proofs.SkipDecodersP.
@@ -245,7 +244,6 @@ Section ReaderContract.
       induction d as [|d IH]; intros st r t HR Ht HP.
       { cbn. exists st, e_depth. split; [reflexivity|discriminate]. }
       assert (Hlen : (length r < fu)%nat) by apply HP.
-      assert (Hlt : len r < two31) by apply HP.
       assert (IH' : forall t st r, t < 256 -> br_rep st r -> P r -> bsim (brskip d fu st t) r (rp inl_br d t r))
         by (intros; apply IH; assumption).
       rewrite rp_S. cbn [brskip]. rewrite (tts_ok SBufferReader t Ht). unfold sret at 1. cbn [sbind].
@@ -261,16 +259,9 @@ Section ReaderContract.
         apply br_field_sim; assumption.
       - (* map *)
         unfold br_map_begin.
-        assert (Hfail : len r < 6 -> forall y, bsim (sbind (sbind (br_next st 6) y)
-                  (fun st1 h => let '(kt, vt, sz) := h in
-                     if (Z.of_N sz <? 0)%Z then (st1, Err e_neg_size) else
-                     sbind (sret st1 (tts SBufferReader kt)) (fun st2 ksz =>
-                     sbind (sret st2 (tts SBufferReader vt)) (fun st3 vsz =>
-                     if (0 <? ksz)%Z && (0 <? vsz)%Z then br_skipn st3 (Z.of_N sz * (ksz + vsz))
-                     else br_loop (fun s => sbind (br_kv (fun s0 t' => brskip d fu s0 t') ksz kt s)
-                                    (fun s1 _ => br_kv (fun s0 t' => brskip d fu s0 t') vsz vt s1)) fu sz st3))))
-                  r (Err E_TRUNC)).
-        { intros H6 y. destruct (br_next_fail st r 6 HR H6) as [st' [e [E He]]]. rewrite E. cbn.
+        assert (Hfail : len r < 6 -> forall (y : rstate -> bytes -> sres rstate (N * N * N)) (z : rstate -> N * N * N -> sres rstate unit),
+                  bsim (sbind (sbind (br_next st 6) y) z) r (Err E_TRUNC)).
+        { intros H6 y z. destruct (br_next_fail st r 6 HR H6) as [st' [e [E He]]]. rewrite E. cbn.
           exists st', e. auto. }
         destruct r as [|kt [|vt r2]]; try (apply Hfail; rewrite ?len_cons; change (len (@nil N)) with 0; slia).
         rewrite hasn_le. destruct (N.leb_spec 4 (len r2)) as [H4|H4].
@@ -281,35 +272,13 @@ Section ReaderContract.
         rewrite E1. cbn [sbind]. rewrite (hdr_map kt vt r2 H4). cbn [sbind]. cbv zeta.
         change (drop 6 (kt :: vt :: r2)) with (drop 4 r2) in HR1.
         assert (HP1 : P (drop 4 r2)) by (apply (P_drop fu (kt :: vt :: r2) 6 HP)).
-        assert (Ld : len (drop 4 r2) < two31) by apply HP1.
         pose proof (unbe4_lt r2 W2) as Hu. set (u := unbe (take 4 r2)) in *.
-        destruct (Z.ltb_spec (Z.of_N u) 0); [exfalso; slia|].
+        rewrite i32_neg by exact Hu.
+        destruct (N.leb_spec two31 u) as [Hneg|Hpos].
+        { cbn. exists st1, e_neg_size. split; [reflexivity|discriminate]. }
         rewrite (tts_ok SBufferReader kt Hkt), (tts_ok SBufferReader vt Hvt). unfold sret. cbn [sbind].
         rewrite !fixed_width_pos.
         unfold rp_em, rp_m. cbn [inl_br in_map_fixed in_map_str]. rewrite Bool.orb_true_r.
-        assert (Hloop : bsim (br_loop (fun s => sbind (br_kv (fun s0 t' => brskip d fu s0 t') (Z.of_N (fixed_width kt)) kt s)
-                                  (fun s1 _ => br_kv (fun s0 t' => brskip d fu s0 t') (Z.of_N (fixed_width vt)) vt s1)) fu u st1)
-                       (drop 4 r2)
-                       (gelems (Datatypes.S (length (kt :: vt :: r2)))
-                          (gpair (member true true (rp inl_br d) kt) (member true true (rp inl_br d) vt)) u (drop 4 r2))).
-        { rewrite br_loop_eq.
-          apply (t_loop_sim rstate br_rep fu); try assumption.
-          - apply pair_sim; intros s0 r0 HR0 HP0; apply br_kv_sim; assumption.
-          - apply gpair_good; apply member_good, rp_good.
-          - apply HP1.
-          - apply ldrop2. }
-        destruct (N.leb_spec two31 u) as [Hneg|Hpos].
-        { (* a count with the sign bit set: rejected because the stream is shorter than 2^31 *)
-          apply bsim_err.
-          destruct (is_fixed kt && is_fixed vt) eqn:FF.
-          - apply andb_true_iff in FF as [Fk Fv]. unfold is_fixed in Fk, Fv.
-            destruct (kind_of kt) as [kw| | | | |] eqn:Kk; try discriminate.
-            destruct (kind_of vt) as [vw| | | | |] eqn:Kv; try discriminate.
-            unfold fixed_width. rewrite Kk, Kv.
-            pose proof (kind_fixed_pos _ _ Kk). pose proof (kind_fixed_pos _ _ Kv).
-            rewrite <- N2Z.inj_add, <- N2Z.inj_mul.
-            apply (br_skipn_fail st1 (drop 4 r2)); [exact HR1|]. snia.
-          - eapply too_many; [| |exact Hloop]; [apply gpair_good; apply member_good, rp_good|slia]. }
         apply (tsim_shift rstate br_rep _ (kt :: vt :: r2) 6). change (drop 6 (kt :: vt :: r2)) with (drop 4 r2).
         destruct (is_fixed kt && is_fixed vt) eqn:FF.
         + apply andb_true_iff in FF as [Fk Fv]. unfold is_fixed in Fk, Fv.
@@ -322,7 +291,11 @@ Section ReaderContract.
           rewrite gelems_fixed; [|slia|apply ldrop2].
           rewrite <- N2Z.inj_add, <- N2Z.inj_mul.
           apply br_skipn_exact. exact HR1.
-        + exact Hloop.
+        + rewrite br_loop_eq.
+          apply (t_loop_sim rstate br_rep fu); try assumption.
+          * apply pair_sim; intros s0 r0 HR0 HP0; apply br_kv_sim; assumption.
+          * apply gpair_good; apply member_good, rp_good.
+          * apply ldrop2.
       - (* list / set *)
         unfold br_list_begin.
         assert (Hfail : len r < 5 -> forall (y : rstate -> bytes -> sres rstate (N * N)) (z : rstate -> N * N -> sres rstate unit), bsim (sbind (sbind (br_next st 5) y) z) r (Err E_TRUNC)).
@@ -337,34 +310,26 @@ Section ReaderContract.
         rewrite E1. cbn [sbind]. rewrite (hdr_list et r1 H4). cbn [sbind]. cbv zeta.
         change (drop 5 (et :: r1)) with (drop 4 r1) in HR1.
         assert (HP1 : P (drop 4 r1)) by (apply (P_drop fu (et :: r1) 5 HP)).
-        assert (Ld : len (drop 4 r1) < two31) by apply HP1.
         pose proof (unbe4_lt r1 W1) as Hu. set (u := unbe (take 4 r1)) in *.
-        destruct (Z.ltb_spec (Z.of_N u) 0); [exfalso; slia|].
+        rewrite i32_neg by exact Hu.
+        destruct (N.leb_spec two31 u) as [Hneg|Hpos].
+        { cbn. exists st1, e_neg_size. split; [reflexivity|discriminate]. }
         rewrite (tts_ok SBufferReader et Het). unfold sret. cbn [sbind].
         rewrite !fixed_width_pos.
         unfold rp_el. cbn [inl_br in_list_str].
+        apply (tsim_shift rstate br_rep _ (et :: r1) 5). change (drop 5 (et :: r1)) with (drop 4 r1).
         destruct (is_fixed et) eqn:Fe.
         + unfold is_fixed in Fe. destruct (kind_of et) as [w| | | | |] eqn:Ke; try discriminate.
           unfold fixed_width. rewrite Ke. pose proof (kind_fixed_pos _ _ Ke).
           rewrite <- N2Z.inj_mul.
-          destruct (N.leb_spec two31 u) as [Hneg|Hpos].
-          { apply bsim_err. apply (br_skipn_fail st1 (drop 4 r1)); [exact HR1|]. snia. }
-          apply (tsim_shift rstate br_rep _ (et :: r1) 5). change (drop 5 (et :: r1)) with (drop 4 r1).
           rewrite (gelems_ext _ _ (fixedp w)) by (apply member_fixed_ext'; assumption).
           rewrite gelems_fixed; [|slia|apply ldrop1].
           apply br_skipn_exact. exact HR1.
-        + assert (Hloop : bsim (br_loop (br_lelem (fun s0 t' => brskip d fu s0 t') et) fu u st1) (drop 4 r1)
-                       (gelems (Datatypes.S (length (et :: r1))) (member true true (rp inl_br d) et) u (drop 4 r1))).
-          { rewrite br_loop_eq.
-            apply (t_loop_sim rstate br_rep fu); try assumption.
-            - intros s0 r0 HR0 HP0; apply br_lelem_sim; assumption.
-            - apply member_good, rp_good.
-            - apply HP1.
-            - apply ldrop1. }
-          destruct (N.leb_spec two31 u) as [Hneg|Hpos].
-          { apply bsim_err. eapply too_many; [| |exact Hloop]; [apply member_good, rp_good|slia]. }
-          apply (tsim_shift rstate br_rep _ (et :: r1) 5). change (drop 5 (et :: r1)) with (drop 4 r1).
-          exact Hloop.
+        + rewrite br_loop_eq.
+          apply (t_loop_sim rstate br_rep fu); try assumption.
+          * intros s0 r0 HR0 HP0; apply br_lelem_sim; assumption.
+          * apply member_good, rp_good.
+          * apply ldrop1.
       - cbn. exists st, e_unknown_type. split; [reflexivity|discriminate].
     Qed.
 
@@ -399,7 +364,7 @@ Section ReaderContract.
 
   (* ---------- BufferReader.Skip ---------- *)
   Theorem brskip_is_ref S c st t d :
-    wf S -> At S c st -> c <= len S -> len S - c < two31 -> t < 256 ->
+    wf S -> At S c st -> c <= len S -> t < 256 ->
     match rp inl_br d t (drop c S) with
     | Ok (n, _) => exists st', br_skip_depth st t d = (st', Ok tt) /\ At S (c + n) st' /\
                                r_readlen st' = r_readlen st + n
@@ -407,11 +372,11 @@ Section ReaderContract.
     | _ => False
     end.
   Proof.
-    intros W A Hc Hlen Ht. unfold br_skip_depth.
+    intros W A Hc Ht. unfold br_skip_depth.
     assert (HR : br_rep S c (r_readlen st) st (drop c S)).
     { exists c. repeat split; try assumption; lia. }
     assert (HP : P (r_fuel st) (drop c S)).
-    { split; [unfold r_fuel; pose proof (RC_avail S c st A); lia|rewrite len_drop; exact Hlen]. }
+    { unfold P, r_fuel. pose proof (RC_avail S c st A). lia. }
     pose proof (brskip_sim S W c (r_readlen st) (r_fuel st) d st (drop c S) t HR Ht HP) as T.
     pose proof (rp_good inl_br d t (drop c S)) as G.
     unfold tsim in T. destruct (rp inl_br d t (drop c S)) as [[n h]|e| |]; try contradiction.
@@ -423,53 +388,9 @@ Section ReaderContract.
   Qed.
 
 
-  (* ---------- FINDING: BufferReader accepts container counts with the sign bit set ---------- *)
-  (* LIST<BOOL> with count u >= 2^31 followed by u bytes: int(binary.BigEndian.Uint32(..)) is u on
-     64-bit platforms, the "sz < 0" test is dead, skipn(u) succeeds.  The grammar (and Binary.Skip)
-     reject it as a negative size. *)
-  Lemma brskip_negative_count S c st u tail d :
-    wf S -> At S c st -> drop c S = 2 :: be 4 u ++ tail -> two31 <= u < two32 -> len tail = u ->
-    gparse 15 (drop c S) = Err E_NEGSIZE /\
-    exists st', br_skip_depth st 15 (Datatypes.S d) = (st', Ok tt) /\ r_readlen st' = r_readlen st + (5 + u).
-  Proof.
-    intros W A Hd Hu Ht.
-    assert (Hl : len (drop c S) = 5 + u).
-    { rewrite Hd, len_cons, len_app, be_len, Ht. lia. }
-    assert (Hc : c <= len S) by (rewrite len_drop in Hl; lia).
-    assert (H4 : unbe (take 4 (be 4 u ++ tail)) = u).
-    { replace (take 4 (be 4 u ++ tail)) with (be 4 u).
-      - rewrite unbe_be. apply N.mod_small. apply Hu.
-      - symmetry. apply (take_app_len (be 4 u) tail). }
-    split.
-    { rewrite Hd. unfold gparse. destruct (length (2 :: be 4 u ++ tail)) eqn:E; [discriminate|].
-      cbn [gp]. change (kind_of 15) with KList. cbv iota.
-      rewrite hasn_le, len_app, be_len, Ht. destruct (N.leb_spec 4 (N.of_nat 4 + u)); [|lia].
-      cbv zeta. rewrite H4. destruct (N.leb_spec two31 u); [reflexivity|lia]. }
-    assert (HR : br_rep S c (r_readlen st) st (drop c S)).
-    { exists c. repeat split; try assumption; lia. }
-    unfold br_skip_depth. cbn [brskip].
-    rewrite (tts_ok SBufferReader 15 ltac:(lia)). unfold sret at 1. cbn [sbind].
-    change (0 <? Z.of_N (fixed_width 15))%Z with false.
-    change (is_ty 15 thrift_STRING) with false. change (is_ty 15 thrift_MAP) with false.
-    change (is_ty 15 thrift_LIST || is_ty 15 thrift_SET) with true. cbv iota.
-    unfold br_list_begin.
-    destruct (br_next_ok S c (r_readlen st) st (drop c S) 5 HR ltac:(lia)) as [st1 [E1 HR1]].
-    rewrite E1. cbn [sbind]. rewrite Hd. rewrite hdr_list by (rewrite len_app, be_len, Ht; lia).
-    cbn [sbind]. cbv zeta. rewrite H4.
-    destruct (Z.ltb_spec (Z.of_N u) 0); [exfalso; lia|].
-    rewrite (tts_ok SBufferReader 2 ltac:(lia)). unfold sret. cbn [sbind].
-    change (0 <? Z.of_N (fixed_width 2))%Z with true. cbv iota.
-    change (Z.of_N (fixed_width 2)) with 1%Z. rewrite Z.mul_1_r.
-    destruct (br_skipn_ok S c (r_readlen st) st1 _ u HR1) as [st2 [E2 [c' (A' & Hc' & Hd' & Hl')]]].
-    { rewrite len_drop, Hl. lia. }
-    rewrite E2. exists st2. split; [reflexivity|].
-    rewrite !drop_plus in Hd'.
-    apply (f_equal len) in Hd'. rewrite !len_drop in Hd'. rewrite len_drop in Hl. lia.
-  Qed.
-
   (* ---------- SkipDecoder.Next ---------- *)
   Theorem pk_next_is_ref S c st t d rn0 :
-    wf S -> At S c st -> c <= len S -> len S - c < two31 -> t < 256 ->
+    wf S -> At S c st -> c <= len S -> t < 256 ->
     match rp inl_none d t (drop c S) with
     | Ok (n, _) => exists st', pk_next_depth {| pk_r := st; pk_rn := rn0 |} t d
                                  = ({| pk_r := st'; pk_rn := n |}, Ok (take n (drop c S))) /\
@@ -478,12 +399,12 @@ Section ReaderContract.
     | _ => False
     end.
   Proof.
-    intros W A Hc Hlen Ht. unfold pk_next_depth. cbn [pk_r].
+    intros W A Hc Ht. unfold pk_next_depth. cbn [pk_r].
     set (s0 := {| pk_r := st; pk_rn := 0 |}).
     assert (HR : pk_rep S c (r_readlen st) s0 (drop c S)).
     { unfold pk_rep, s0. cbn [pk_r pk_rn]. rewrite N.add_0_r. repeat split; try assumption. }
     assert (HP : P (pk_fuel st) (drop c S)).
-    { split; [unfold pk_fuel; pose proof (RC_avail S c st A); lia|rewrite len_drop; exact Hlen]. }
+    { unfold P, pk_fuel. pose proof (RC_avail S c st A). lia. }
     pose proof (tskip_sim pk_state pk_skipN (pk_rep S c (r_readlen st))
                   (pk_SN_ok S c (r_readlen st)) (pk_SN_fail S c (r_readlen st)) (pk_rep_wf S W c (r_readlen st))
                   (pk_fuel st) d s0 (drop c S) t HR Ht HP) as T.
